@@ -9,6 +9,7 @@ import (
 	"runtime"
 	"strings"
 	"sync"
+	"testing/iotest"
 	"time"
 
 	netty "github.com/go-netty/go-netty"
@@ -72,7 +73,7 @@ type onlyReader struct{ r io.Reader }
 
 func (o onlyReader) Read(p []byte) (int, error) { return o.r.Read(p) }
 
-var c09Carriers = []string{"[]byte", "[][]byte", "*bytes.Buffer", "*bytes.Reader", "*strings.Reader", "io.Reader", "io.MultiReader", "string"}
+var c09Carriers = []string{"[]byte", "[][]byte", "*bytes.Buffer", "*bytes.Reader", "*strings.Reader", "io.Reader", "io.MultiReader", "string", "io.Reader(data+EOF)"}
 var c09Pipes = []string{"none", "delimiter+text", "length-field", "varint"}
 
 // streamAtHead reports whether the message reaches the head handler as an
@@ -83,7 +84,7 @@ func streamAtHead(pipe, carrier string) bool {
 	}
 	switch pipe {
 	case "none":
-		return carrier == "*bytes.Reader" || carrier == "*strings.Reader" || carrier == "io.Reader" || carrier == "io.MultiReader"
+		return carrier == "*bytes.Reader" || carrier == "*strings.Reader" || carrier == "io.Reader" || carrier == "io.MultiReader" || carrier == "io.Reader(data+EOF)"
 	case "delimiter+text":
 		return carrier != "[]byte" // everything but []byte becomes MultiReader(body, delimiter)
 	}
@@ -110,6 +111,8 @@ func c09Msg(carrier string, data []byte) netty.Message {
 		return io.MultiReader(onlyReader{bytes.NewReader(data[:k])}, onlyReader{bytes.NewReader(data[k:])})
 	case "string":
 		return string(data)
+	case "io.Reader(data+EOF)":
+		return iotest.DataErrReader(onlyReader{bytes.NewReader(data)})
 	}
 	panic(carrier)
 }
@@ -160,13 +163,13 @@ func runC09(c *core.Ctx) {
 		useCtx := rng.Intn(3) == 0
 		// mixed trials: even writers stream (several low-level writes per message), odd writers send single-write messages
 		carrier2 := carrier
-		if (idx/4)%3 == 2 && pipe == "none" {
+		if (idx/4)%7 == 3 && pipe == "none" {
 			carrier = []string{"io.Reader", "io.MultiReader", "*bytes.Reader"}[rng.Intn(3)]
 			carrier2 = []string{"[]byte", "[][]byte", "*bytes.Buffer"}[rng.Intn(3)]
 			sizeClass = 2
 			sizes = []int{2047, 2048, 2049, 3000, 5000}
 		}
-		procs := []int{2, 4, 8, 16}[rng.Intn(4)]
+		procs := []int{1, 1, 2, 4, 8, 16}[rng.Intn(6)]
 		runtime.GOMAXPROCS(procs)
 
 		var handlers []netty.Handler
@@ -181,7 +184,19 @@ func runC09(c *core.Ctx) {
 		}
 		handlers = append(handlers, cw)
 		plan := []mon.Step{{At: []string{"tW1", "tV1", "tW0", "tV0"}[rng.Intn(4)], Occ: 0, Kind: mon.Yield, N: 1 + rng.Intn(3)}}
-		rig := mon.NewRig(mon.RigOpts{Mode: mode, Queue: q, Handlers: handlers, QuietTail: true, Plan: plan})
+		if rng.Intn(2) == 0 {
+			// a sender that lags behind the writers: queued chunks wait in the queue / batch meanwhile
+			plan = append(plan, mon.Step{At: []string{"sBat", "sLoop", "x1", "tV0"}[rng.Intn(4)], Occ: 0, Kind: mon.Sleep, D: time.Duration(50+rng.Intn(300)) * time.Microsecond})
+		}
+		ro := mon.RigOpts{Mode: mode, Queue: q, Handlers: handlers, QuietTail: true, Plan: plan}
+		if idx%5 == 4 {
+			// on the library's own (buffering) transport wrapper: the bytes are judged at the connection underneath
+			wraps := [][2]int{{0, 4096}, {0, 64}, {4096, 4096}, {0, 0}}
+			wv := wraps[(idx/5)%len(wraps)]
+			ro.Wrap = &wv
+			c.Count("trials_on_transport_wrapper", 1)
+		}
+		rig := mon.NewRig(ro)
 		text := pipe == "delimiter+text"
 		var wg sync.WaitGroup
 		for w := 0; w < W; w++ {
